@@ -11,114 +11,16 @@ import (
 	"sync"
 	"time"
 
-	utls "github.com/refraction-networking/utls"
 	"verifharness/h2raw"
 	"verifharness/hello"
+	"verifharness/hellospec"
 	"verifharness/stack"
 )
-
-// Desc describes a ClientHello to be produced by utls; extension names in wire order.
-type Desc struct {
-	Ciphers []uint16
-	Exts    []string
-	ALPN    []string
-	SigAlgs []uint16
-	SV      []uint16
-	Groups  []uint16
-	SNI     string
-}
-
-func (d Desc) clone() Desc {
-	n := d
-	n.Ciphers = append([]uint16{}, d.Ciphers...)
-	n.Exts = append([]string{}, d.Exts...)
-	n.ALPN = append([]string{}, d.ALPN...)
-	n.SigAlgs = append([]uint16{}, d.SigAlgs...)
-	n.SV = append([]uint16{}, d.SV...)
-	n.Groups = append([]uint16{}, d.Groups...)
-	return n
-}
-
-func base13() Desc {
-	return Desc{
-		Ciphers: []uint16{0x1301, 0x1302, 0x1303, 0xc02b, 0xc02f, 0xc02c, 0xc030, 0xcca9, 0xcca8},
-		Exts:    []string{"sni", "ems", "reneg", "groups", "points", "ticket", "alpn", "status", "sigalgs", "sct", "keyshare", "pskmodes", "sv"},
-		ALPN:    []string{"h2", "http/1.1"},
-		SigAlgs: []uint16{0x0403, 0x0804, 0x0401, 0x0503, 0x0805, 0x0501},
-		SV:      []uint16{0x0304, 0x0303},
-		Groups:  []uint16{29, 23},
-	}
-}
-
-func base12() Desc {
-	return Desc{
-		Ciphers: []uint16{0xc02b, 0xc02f, 0xc02c, 0xc030, 0xcca9, 0xcca8, 0xc009, 0xc013},
-		Exts:    []string{"sni", "ems", "reneg", "groups", "points", "alpn", "sigalgs"},
-		ALPN:    []string{"h2", "http/1.1"},
-		SigAlgs: []uint16{0x0403, 0x0804, 0x0401},
-		Groups:  []uint16{29, 23},
-	}
-}
-
-func (d Desc) Spec() *utls.ClientHelloSpec {
-	s := &utls.ClientHelloSpec{CipherSuites: append([]uint16{}, d.Ciphers...), CompressionMethods: []byte{0}}
-	for _, e := range d.Exts {
-		switch {
-		case e == "sni":
-			s.Extensions = append(s.Extensions, &utls.SNIExtension{ServerName: d.SNI})
-		case e == "ems":
-			s.Extensions = append(s.Extensions, &utls.ExtendedMasterSecretExtension{})
-		case e == "reneg":
-			s.Extensions = append(s.Extensions, &utls.RenegotiationInfoExtension{Renegotiation: utls.RenegotiateOnceAsClient})
-		case e == "groups":
-			var cs []utls.CurveID
-			for _, g := range d.Groups {
-				cs = append(cs, utls.CurveID(g))
-			}
-			s.Extensions = append(s.Extensions, &utls.SupportedCurvesExtension{Curves: cs})
-		case e == "points":
-			s.Extensions = append(s.Extensions, &utls.SupportedPointsExtension{SupportedPoints: []byte{0}})
-		case e == "ticket":
-			s.Extensions = append(s.Extensions, &utls.SessionTicketExtension{})
-		case e == "alpn":
-			s.Extensions = append(s.Extensions, &utls.ALPNExtension{AlpnProtocols: append([]string{}, d.ALPN...)})
-		case e == "status":
-			s.Extensions = append(s.Extensions, &utls.StatusRequestExtension{})
-		case e == "sigalgs":
-			var sa []utls.SignatureScheme
-			for _, a := range d.SigAlgs {
-				sa = append(sa, utls.SignatureScheme(a))
-			}
-			s.Extensions = append(s.Extensions, &utls.SignatureAlgorithmsExtension{SupportedSignatureAlgorithms: sa})
-		case e == "sct":
-			s.Extensions = append(s.Extensions, &utls.SCTExtension{})
-		case e == "keyshare":
-			s.Extensions = append(s.Extensions, &utls.KeyShareExtension{KeyShares: []utls.KeyShare{{Group: utls.X25519}}})
-		case e == "pskmodes":
-			s.Extensions = append(s.Extensions, &utls.PSKKeyExchangeModesExtension{Modes: []uint8{utls.PskModeDHE}})
-		case e == "sv":
-			s.Extensions = append(s.Extensions, &utls.SupportedVersionsExtension{Versions: append([]uint16{}, d.SV...)})
-		case e == "grease":
-			s.Extensions = append(s.Extensions, &utls.UtlsGREASEExtension{})
-		case e == "padding":
-			s.Extensions = append(s.Extensions, &utls.UtlsPaddingExtension{GetPaddingLen: utls.BoringPaddingStyle})
-		case strings.HasPrefix(e, "generic:"):
-			// generic:<type hex>:<body hex>
-			parts := strings.Split(e, ":")
-			id, _ := strconv.ParseUint(parts[1], 16, 16)
-			body, _ := hex.DecodeString(parts[2])
-			s.Extensions = append(s.Extensions, &utls.GenericExtension{Id: uint16(id), Data: body})
-		default:
-			panic("unknown ext " + e)
-		}
-	}
-	return s
-}
 
 type Case struct {
 	Name     string
 	Class    string // normal | d7 | d9a | d9b | d11 | d12 | ...
-	D        Desc
+	D        hellospec.Desc
 	Fragment int
 	Segment  int
 	WantH1   bool
@@ -168,26 +70,26 @@ func removeStr(s []string, v string) []string {
 
 func buildCases(rng *rand.Rand, tier string) []Case {
 	var cs []Case
-	add := func(name, class string, d Desc) *Case {
+	add := func(name, class string, d hellospec.Desc) *Case {
 		cs = append(cs, Case{Name: name, Class: class, D: d})
 		return &cs[len(cs)-1]
 	}
-	b13, b12 := base13(), base12()
+	b13, b12 := hellospec.Base13(), hellospec.Base12()
 	add("base13-h2", "normal", b13)
-	h1 := b13.clone()
+	h1 := b13.Clone()
 	h1.ALPN = []string{"http/1.1"}
 	add("base13-h1", "normal", h1)
 	add("base12-h2", "normal", b12)
-	h112 := b12.clone()
+	h112 := b12.Clone()
 	h112.ALPN = []string{"http/1.1"}
 	add("base12-h1", "normal", h112)
-	noalpn := b13.clone()
+	noalpn := b13.Clone()
 	noalpn.Exts = removeStr(noalpn.Exts, "alpn")
 	add("base13-noalpn", "normal", noalpn)
-	nosni := b13.clone()
+	nosni := b13.Clone()
 	nosni.Exts = removeStr(nosni.Exts, "sni")
 	add("base13-nosni", "normal", nosni)
-	rev := b13.clone()
+	rev := b13.Clone()
 	rev.ALPN = []string{"http/1.1", "h2"}
 	add("alpn-http11-first", "normal", rev)
 	// GREASE cipher at every position (first / middle / last)
@@ -196,7 +98,7 @@ func buildCases(rng *rand.Rand, tier string) []Case {
 		step = 4
 	}
 	for i := 0; i <= len(b13.Ciphers); i += step {
-		d := b13.clone()
+		d := b13.Clone()
 		d.Ciphers = insertU16(d.Ciphers, i, 0x0a0a)
 		if i%2 == 1 {
 			d.ALPN = []string{"http/1.1"}
@@ -204,20 +106,20 @@ func buildCases(rng *rand.Rand, tier string) []Case {
 		add(fmt.Sprintf("grease-cipher-at-%d", i), "normal", d)
 	}
 	{
-		d := b13.clone()
+		d := b13.Clone()
 		d.Ciphers = insertU16(d.Ciphers, len(d.Ciphers), 0xfafa)
 		add("grease-cipher-last", "normal", d)
 	}
 	// GREASE extension first / last / both; GREASE-typed generic extensions in the middle
 	for _, pos := range [][]int{{0}, {len(b13.Exts)}, {0, len(b13.Exts) + 1}, {3}} {
-		d := b13.clone()
+		d := b13.Clone()
 		for _, p := range pos {
 			d.Exts = insertStr(d.Exts, p, "grease")
 		}
 		add(fmt.Sprintf("grease-ext-at-%v", pos), "normal", d)
 	}
 	{
-		d := b13.clone()
+		d := b13.Clone()
 		d.Exts = insertStr(d.Exts, 2, "generic:3a3a:")
 		d.Exts = insertStr(d.Exts, 6, "generic:dada:00")
 		d.ALPN = []string{"http/1.1"}
@@ -225,25 +127,25 @@ func buildCases(rng *rand.Rand, tier string) []Case {
 	}
 	// GREASE in supported_groups, supported_versions
 	{
-		d := b13.clone()
+		d := b13.Clone()
 		d.Groups = []uint16{0x0a0a, 29, 23}
 		d.SV = []uint16{0x0a0a, 0x0304, 0x0303}
 		add("grease-groups-sv", "normal", d)
 	}
 	{
-		d := b13.clone()
+		d := b13.Clone()
 		d.SV = []uint16{0x0303, 0x0304}
 		add("sv-12-first", "normal", d)
 	}
 	// unknown extension types, padding
 	{
-		d := b13.clone()
+		d := b13.Clone()
 		d.Exts = insertStr(d.Exts, 4, "generic:9999:dead")
 		d.Exts = insertStr(d.Exts, 9, "generic:fe0d:00")
 		add("unknown-exts", "normal", d)
 	}
 	{
-		d := b13.clone()
+		d := b13.Clone()
 		d.Exts = append(d.Exts, "padding")
 		add("padding", "normal", d)
 	}
@@ -253,9 +155,9 @@ func buildCases(rng *rand.Rand, tier string) []Case {
 		nperm = 60
 	}
 	for k := 0; k < nperm; k++ {
-		d := b13.clone()
+		d := b13.Clone()
 		if k%3 == 0 {
-			d = b12.clone()
+			d = b12.Clone()
 		}
 		rng.Shuffle(len(d.Ciphers), func(i, j int) { d.Ciphers[i], d.Ciphers[j] = d.Ciphers[j], d.Ciphers[i] })
 		rng.Shuffle(len(d.Exts), func(i, j int) { d.Exts[i], d.Exts[j] = d.Exts[j], d.Exts[i] })
@@ -281,7 +183,7 @@ func buildCases(rng *rand.Rand, tier string) []Case {
 	}
 	// more than 99 ciphers
 	{
-		d := b13.clone()
+		d := b13.Clone()
 		for i := 0; i < 110; i++ {
 			d.Ciphers = append(d.Ciphers, uint16(0x5000+i))
 		}
@@ -289,43 +191,43 @@ func buildCases(rng *rand.Rand, tier string) []Case {
 	}
 	// byte-at-a-time delivery of the hello, and coalescing is what the kernel does anyway
 	{
-		c := add("segment-1", "normal", b13.clone())
+		c := add("segment-1", "normal", b13.Clone())
 		c.Segment = 1
-		d := b13.clone()
+		d := b13.Clone()
 		d.ALPN = []string{"http/1.1"}
 		c2 := add("segment-3-h1", "normal", d)
 		c2.Segment = 3
 	}
 	// ---- inputs behind known findings
 	{
-		d := b13.clone()
+		d := b13.Clone()
 		d.SNI = strings.Repeat("a", 63) + "." + strings.Repeat("b", 63) + "." + strings.Repeat("c", 63) + "." + strings.Repeat("d", 61)
 		add("sni-253", "d7", d)
 	}
 	{
-		c := add("hello-in-two-records", "d9a", b13.clone())
+		c := add("hello-in-two-records", "d9a", b13.Clone())
 		c.Fragment = 100
-		d := b13.clone()
+		d := b13.Clone()
 		d.ALPN = []string{"http/1.1"}
 		c2 := add("hello-in-two-records-h1", "d9a", d)
 		c2.Fragment = 37
 	}
 	for _, e := range []string{"generic:001b:ff", "generic:001c:40", "generic:0022:0003", "generic:4469:0005"} {
-		d := b13.clone()
+		d := b13.Clone()
 		d.Exts = insertStr(d.Exts, 5, e)
 		add("malformed-ignored-ext-"+e[8:12], "d9b", d)
 	}
 	{
-		d := b13.clone()
+		d := b13.Clone()
 		d.SigAlgs = append([]uint16{0x0a0a}, d.SigAlgs...)
 		add("grease-sigalg-first", "d11", d)
-		d2 := b13.clone()
+		d2 := b13.Clone()
 		d2.SigAlgs = append(d2.SigAlgs, 0xfafa)
 		d2.ALPN = []string{"http/1.1"}
 		add("grease-sigalg-last", "d11", d2)
 	}
 	{
-		d := b13.clone()
+		d := b13.Clone()
 		d.ALPN = []string{"\n\n", "h2", "http/1.1"}
 		add("alpn-grease-controlbytes", "d12", d)
 	}
